@@ -43,11 +43,11 @@ def gen_case(rng, kind=None, focus=None):
         nmsg += 1
         body = "bb%04x" % nmsg
         if not v1:
-            return rng.choice(["", "", "00000001"]) + body if rng.random() < 0.9 else rng.choice(["", "00", "0001"])
+            return rng.choice(["", "", "00000001"]) + body
         r = rng.random()
         if r < 0.06:
-            return rng.choice(["-", "00", "0000", "000000"])[:6].replace("-", "") or "-"
-        if r < 0.12:
+            return rng.choice(["-", "00", "0000", "000000"])
+        if r < 0.09:
             return "%08x" % rng.choice(hop_values(rng, ttl))          # exactly four bytes: empty body
         w = 0.75 if focus != "hop" else 0.35
         if rng.random() < w:
@@ -161,8 +161,10 @@ def oracle(case, obs, raw):
     expected = []                 # valid consumed messages in consumption order: (hdr, body)
     optional = []                 # may have been consumed when the pipe went away
     delivered = []
+    order_log = []                # consumption ("e" required, "o" optional) and delivery ("d") events in time order
     strict_in = True
     parked_loss = 0               # messages that may have been parked in a pipe's receive when it went down
+    closures = 0                  # connections that went down (each may take one in-flight message with it)
     closed = False
     prev_open = set()
     for k, line in enumerate(case):
@@ -172,6 +174,11 @@ def oracle(case, obs, raw):
             return (k, "no observation")
         op = t[0]
         openp = set(i for i, p in o["pipes"].items() if p["st"] == "o")
+        # a connection that went away may take with it the one message parked in its receive and
+        # the one message in flight on its send
+        for i in prev_open - openp:
+            parked_loss += 1
+            closures += 1
         # ---- one peer at a time
         if len(openp) > 1:
             return (k, "more than one peer attached at the same time: pipes %s" % sorted(openp))
@@ -214,7 +221,7 @@ def oracle(case, obs, raw):
         elif op == "drop" and o["rv"] == 0:
             dropped.add(int(t[1][1:]))
         elif op == "inject" and o["rv"] == 0:
-            inj.setdefault(int(t[1][1:]), []).append(list(classify(kind, ttl, t[2])) + [False])
+            inj.setdefault(int(t[1][1:]), []).append([t[2], False])
         got = []
         if o["got"]:
             got.append(o["got"])
@@ -257,11 +264,18 @@ def oracle(case, obs, raw):
                             return (k, "message %s transmitted with a malformed hop header %s" % (b, h))
                     elif h != sent_hdr[b]:
                         return (k, "pair0 changed the header of %s: %s" % (b, h))
+                    if tx_seen and accepted.index(b) < accepted.index(tx_seen[-1]):
+                        return (k, "message %s transmitted after %s although it was sent before it" % (b, tx_seen[-1]))
                     tx_seen.append(b)
-                    if strict_out and accepted[:len(tx_seen)] != tx_seen:
-                        return (k, "messages transmitted out of send order or with a gap: %s vs accepted %s" % (tx_seen[-3:], accepted[max(0, len(tx_seen) - 3):len(tx_seen)]))
+                    if strict_out:
+                        # nothing accepted earlier may be missing, except one message per connection that
+                        # went down (handed to it and lost with it before it could be observed)
+                        gaps = [x for x in accepted[:accepted.index(b)] if x not in tx_seen]
+                        if len(gaps) > closures:
+                            return (k, "messages skipped on the way out although the connection stayed up: %s" % gaps[:4])
                 cur_tx[i] = b
-        # ---- what the socket consumed from the peers
+        # ---- what the socket consumed from the peers (a message is judged with the TTL in force when it
+        #      is taken from the connection, not when the peer sent it)
         for i, lst in inj.items():
             p = o["pipes"].get(i)
             if p is None:
@@ -269,57 +283,67 @@ def oracle(case, obs, raw):
             if p["st"] == "o":
                 ncons = len(lst) - p["inbox"]
                 for j, e in enumerate(lst):
-                    if j < ncons and not e[3]:
-                        e[3] = True
-                        if e[0] == "bad":
+                    if j < ncons and not e[1]:
+                        e[1] = True
+                        cls, h, b = classify(kind, ttl, e[0])
+                        if cls == "bad":
                             return (k, "a message with a malformed hop header was consumed and its sender stayed connected")
-                        if e[0] == "ok":
-                            expected.append((e[1], e[2]))
+                        if cls == "ok":
+                            expected.append((h, b))
+                            order_log.append(("e", (h, b)))
             else:
                 # the connection is gone: what was still unconsumed may or may not have been taken first
-                rest = [e for e in lst if not e[3]]
+                rest = [e for e in lst if not e[1]]
+                stop = False
                 for e in rest:
-                    e[3] = True
-                    if e[0] == "bad":
-                        break
-                    if e[0] == "ok":
-                        optional.append((e[1], e[2]))
-        # a connection that went away may take the one message parked in its receive with it
-        for i in prev_open - openp:
-            parked_loss += 1
+                    e[1] = True
+                    cls, h, b = classify(kind, ttl, e[0])
+                    if cls == "bad":
+                        stop = True
+                    if cls == "ok" and not stop:
+                        optional.append((h, b))
+                        order_log.append(("o", (h, b)))
         # over-TTL / valid messages never disconnect
         if op == "inject" and o["rv"] == 0:
             i = int(t[1][1:])
-            if i in prev_open and i not in openp and i not in dropped and all(e[0] != "bad" for e in inj.get(i, [])):
+            if i in prev_open and i not in openp and i not in dropped and all(classify(kind, 15, e[0])[0] != "bad" for e in inj.get(i, [])):
                 return (k, "the connection was closed by a message that is not malformed (%s)" % t[2])
         # ---- deliveries
         for g in got:
             h, b = g.split("/")
-            if (h, b) in delivered:
-                return (k, "message %s delivered twice" % g)
             if (h, b) not in expected and (h, b) not in optional:
                 return (k, "message %s delivered but no peer sent a deliverable message like it" % g)
+            if delivered.count((h, b)) >= expected.count((h, b)) + optional.count((h, b)):
+                return (k, "message %s delivered twice" % g)
             delivered.append((h, b))
+            order_log.append(("d", (h, b)))
         prev_open = openp
-    # order of delivery = order of arrival
-    order = [x for x in expected + optional]
-    pos = [order.index(x) for x in delivered]
-    if pos != sorted(pos):
-        return (len(case) - 1, "messages delivered out of arrival order")
-    if strict_in and not closed:
-        d = [x for x in expected if x in delivered]
-        gaps = [x for x in expected[:expected.index(d[-1]) + 1] if x not in delivered] if d else []
+    # order of delivery = order of arrival: match every delivery to the earliest unmatched arrival after
+    # the previous match
+    arrivals = [(kind_, x) for kind_, x in order_log if kind_ != "d"]
+    cur, matched = 0, set()
+    for x in delivered:
+        j = cur
+        while j < len(arrivals) and arrivals[j][1] != x:
+            j += 1
+        if j == len(arrivals):
+            return (len(case) - 1, "messages delivered out of arrival order (%s/%s)" % x)
+        matched.add(j)
+        cur = j + 1
+    unique = len(set(x for _, x in arrivals)) == len(arrivals)
+    if strict_in and not closed and unique:
+        gaps = [arrivals[j][1] for j in range(cur) if j not in matched and arrivals[j][0] == "e"]
         if len(gaps) > parked_loss:
             return (len(case) - 1, "messages skipped although their connection stayed up: %s" % gaps[:4])
-        tail = [x for x in expected if x not in delivered]
-        drained = len(case) >= 4 and all(obs[j] and obs[j]["rv"] == 8 for j in range(len(case) - 2, len(case)) if case[j] == "recvnb s0") and case[-1] == "recvnb s0"
+        tail = [arrivals[j][1] for j in range(len(arrivals)) if j not in matched and arrivals[j][0] == "e"]
+        drained = len(case) >= 4 and case[-1] == "recvnb s0" and all(obs[j] and obs[j]["rv"] == 8 for j in range(len(case) - 2, len(case)))
         if drained and len(tail) > parked_loss:
             return (len(case) - 1, "messages lost although their connection stayed up: %s" % tail[:4])
     if strict_out and not closed:
         last = obs[-1]
         if last and any(p["st"] == "o" and p.get("nt", 0) == 0 for p in last["pipes"].values()) and not pending_send:
             miss = [b for b in accepted if b not in tx_seen]
-            if miss:
+            if len(miss) > closures:
                 return (len(case) - 1, "accepted messages never transmitted although a peer is attached and idle: %s" % miss[:4])
     return None
 
